@@ -61,8 +61,25 @@ def _pool(shape, seed, tag):
     return g.normal(20.0, 3.0, size=shape) + 1.0
 
 
+_DECOY = [0]
+
+
+def _decoy_default_tables():
+    """Deterministic process history for anything the library keeps at module level around the shipped default noise
+    tables: one default-table call at ANOTHER time resolution happens before every frame under test is built."""
+    import setigen as stg
+    _DECOY[0] += 1
+    if _DECOY[0] != 1 and _DECOY[0] % 200:
+        return          # once per process (and then occasionally): the first default-table call is never the one under test
+    try:
+        stg.Frame(fchans=2, tchans=2, df=1.0, dt=7.0, fch1=1e9, seed=1, t_start=0.0).add_noise_from_obs()
+    except Exception:
+        pass
+
+
 def _mk_frame(shape, df, dt, spy, data=None):
     import setigen as stg
+    _decoy_default_tables()
     m, n = shape
     if data is not None:
         return stg.Frame(data=data, df=df, dt=dt, fch1=6e9, ascending=False, t_start=0.0, seed=spy)
